@@ -478,7 +478,13 @@ func (v *VM) execute(context *Context) error {
 			}
 		case OpCallStack:
 			n := int(v.Instructions[v.PC].Args[ArgsNumArgs])
-			f := v.Stack[len(v.Stack)-1].Value.Interface().(Callable)
+			var f Callable
+			if top := v.Stack[len(v.Stack)-1].Value; top.IsValid() && top.CanInterface() {
+				f, _ = top.Interface().(Callable)
+			}
+			if f == nil {
+				return fmt.Errorf("can't call %s, which isn't a function", v.Stack[len(v.Stack)-1])
+			}
 			v.Stack[len(v.Stack)-1].Value = reflect.ValueOf(n)
 			if args, err = f.CallFromStack(context, n, args); err != nil {
 				return err
